@@ -11,6 +11,9 @@ From J5V.model Require Import Desc J5sAst J5sWalk J5sConvert CmpbOrder CmpbInsta
 From J5V.proofs Require Import CmpbOrderProofs CmpbComposeProofs CmpbStateProofs CmpbLinkTotalProofs.
 From J5V.model Require ProtoPrintFile.
 From J5V.proofs Require CmpbPrintBridgeProofs CmpbPrintBridgeExample ProtoPrintFileExample.
+From J5V.model Require CmpbBytes ProtoPrintFileWf ProtoParseFile.
+From J5V.proofs Require ProtoPrintFileFullProofs.
+From J5V.proofs Require CmpbBytesProofs CmpbBytesExampleProofs CmpbBytesDepsProofs.
 Import ListNotations.
 Local Open Scope N_scope.
 
@@ -19,6 +22,158 @@ Definition C14_full_statement : Prop := full_statement.
 Theorem C14_full : C14_full_statement.
 Proof. exact full_statement_holds. Qed.
 Print Assumptions C14_full.
+
+(* ---- the property over CONCRETE outputs (model/CmpbBytes.v): nothing is a universally quantified stage function.
+   Inputs of the property: the source set [bd] (cmpa's AST bundle), the dependency set [exts], the package [n]; [pkgs] is
+   the set of local packages and [ann] the table of what cmpa's descriptor type does not carry (source line, comments and
+   options of every element), the same in both runs.  A [run] collects everything the output must not depend on: the
+   package listing and the file listing as the file source returned them (run_ok: permutations of the canonical ones),
+   the three map-iteration orders, both fuels, the earlier CompilePackage calls on the same PackageSet, and protobuf's
+   Range order applied to every option list the printer reads.  compile_and_print = CompilePackage (cmpa's converter,
+   SplitPackageFromFilename, hasAPrefix over localPrefixes, the dependency set by path, linked file = descriptor with its
+   linked imports) followed by tool's PrintFile model on every returned file.  Output: per returned file, in order, its
+   name, its descriptor and its printed tokens.
+   FULL statement (bytes form): every run on a well-formed source set returns the same output *)
+Definition C14_full_statement_bytes : Prop :=
+  forall bd exts ann pkgs rank frank n,
+    valid (CmpbBytes.flat_bundle pkgs (CmpbBytes.src_files bd)) ->
+    well_founded_deps (CmpbBytes.flat_bundle pkgs (CmpbBytes.src_files bd)) rank ->
+    owner_ok (cmpa_convert bd) CmpbBytes.split_owner (CmpbBytes.is_local_of pkgs) (CmpbBytes.flat_bundle pkgs (CmpbBytes.src_files bd)) ->
+    imports_wf (cmpa_convert bd) CmpbBytes.split_owner (CmpbBytes.is_local_of pkgs) (CmpbBytes.c_ext_file exts) CmpbBytes.c_deps_of
+               (CmpbBytes.flat_bundle pkgs (CmpbBytes.src_files bd)) frank ->
+    find_pkg n (CmpbBytes.flat_bundle pkgs (CmpbBytes.src_files bd)) <> None ->
+    CmpbBytesProofs.ann_ok ann ->
+    exists o : CmpbBytes.output, forall r, CmpbBytes.run_ok pkgs bd r -> (rank n < CmpbBytes.r_fuel r)%nat ->
+      (forall f, In f (map fst (p_files (spec_pkg (cmpa_convert bd) (CmpbBytes.flat_bundle pkgs (CmpbBytes.src_files bd)) n))) ->
+                 (frank f < CmpbBytes.r_lfuel r)%nat) ->
+      CmpbBytes.compile_and_print bd exts ann r n = Some o.
+Theorem C14_output_bytes_total_deterministic : C14_full_statement_bytes.
+Proof. exact CmpbBytesProofs.output_total_deterministic. Qed.
+Print Assumptions C14_output_bytes_total_deterministic.
+
+(* the same with the PackageSet in ANY admissible state instead of a history of successful calls: [pc] / [lc] hold only what
+   loading / linking produce for this source set (both_ok) and the loaded packages are closed under dependencies - which is what
+   every earlier call leaves, ALSO a failed one (Go keeps the dependencies it had loaded and the files it had linked) *)
+Theorem C14_output_bytes_any_packageset_state : forall bd exts ann pkgs rank frank n,
+  let b0 := CmpbBytes.flat_bundle pkgs (CmpbBytes.src_files bd) in
+  valid b0 -> well_founded_deps b0 rank ->
+  owner_ok (cmpa_convert bd) CmpbBytes.split_owner (CmpbBytes.is_local_of pkgs) b0 ->
+  imports_wf (cmpa_convert bd) CmpbBytes.split_owner (CmpbBytes.is_local_of pkgs) (CmpbBytes.c_ext_file exts) CmpbBytes.c_deps_of b0 frank ->
+  find_pkg n b0 <> None -> CmpbBytesProofs.ann_ok ann ->
+  exists o : CmpbBytes.output, forall r pc lc, CmpbBytes.run_ok pkgs bd r ->
+    both_ok (cmpa_convert bd) CmpbBytes.split_owner (CmpbBytes.is_local_of pkgs) (CmpbBytes.c_ext_file exts) CmpbBytes.c_deps_of CmpbBytes.c_link1 b0 pc lc ->
+    cache_closed b0 pc -> (rank n < CmpbBytes.r_fuel r)%nat ->
+    (forall f, In f (map fst (p_files (spec_pkg (cmpa_convert bd) b0 n))) -> (frank f < CmpbBytes.r_lfuel r)%nat) ->
+    option_map (CmpbBytes.render ann (CmpbBytes.r_range r)) (CmpbBytes.compile_from bd exts r pc lc n) = Some o.
+Proof. exact CmpbBytesProofs.output_from_any_state. Qed.
+Print Assumptions C14_output_bytes_any_packageset_state.
+
+(* without the well-formedness hypotheses on imports: two runs that both return, return the same output *)
+Theorem C14_output_bytes_deterministic : forall bd exts ann pkgs n r1 r2 o1 o2,
+  valid (CmpbBytes.flat_bundle pkgs (CmpbBytes.src_files bd)) -> CmpbBytesProofs.ann_ok ann ->
+  CmpbBytes.run_ok pkgs bd r1 -> CmpbBytes.run_ok pkgs bd r2 ->
+  CmpbBytes.compile_and_print bd exts ann r1 n = Some o1 -> CmpbBytes.compile_and_print bd exts ann r2 n = Some o2 -> o1 = o2.
+Proof. exact CmpbBytesProofs.output_deterministic. Qed.
+Print Assumptions C14_output_bytes_deterministic.
+
+(* Range orders PER CALL: [CmpbBytes.reorder] applies one permutation function to every option list, a real run draws a fresh
+   order at every Range call.  Relationally: any two descriptors obtained from the printer's descriptor of a linked file by
+   permuting each of its option lists INDEPENDENTLY print the same tokens, and [reorder rng] is one of them *)
+Theorem C14_output_any_range_order : forall ann l,
+  (forall d1 d2, CmpbPrintBridgeProofs.dfile_equiv (CmpbBytes.to_print ann l) d1 -> CmpbPrintBridgeProofs.dfile_equiv (CmpbBytes.to_print ann l) d2 ->
+     ProtoPrintFile.print_file_tokens (CmpbBytes.st_of ann l) d1 = ProtoPrintFile.print_file_tokens (CmpbBytes.st_of ann l) d2)
+  /\ (forall rng, CmpbBytesProofs.ann_ok ann -> CmpbBytes.perm_fun rng ->
+        CmpbPrintBridgeProofs.dfile_equiv (CmpbBytes.to_print ann l) (CmpbBytes.reorder rng (CmpbBytes.to_print ann l))).
+Proof.
+  exact (fun ann l => conj (CmpbBytesProofs.any_range_variants_print_the_same ann l) (CmpbBytesProofs.reorder_is_variant ann l)).
+Qed.
+Print Assumptions C14_output_any_range_order.
+
+(* the package listing enters only as a set: hasAPrefix over localPrefixes (C14-C class: a package directory nested in
+   another one, enclosing package listed first), and the bundle CompilePackage sees (localPackageNames + the path.Dir
+   filter of listPackageFiles) is the same up to the order of each package's files; a package IS the same for both *)
+Theorem C14_package_listing_order_irrelevant : forall pkgs1 pkgs2, Permutation pkgs1 pkgs2 ->
+  (forall path, CmpbBytes.is_local_of pkgs1 path = CmpbBytes.is_local_of pkgs2 path)
+  /\ forall (F D : Type) (convert : env -> @srcfile F -> bytes -> D) (files1 files2 : list (@srcfile F)),
+       Permutation files1 files2 -> valid (CmpbBytes.flat_bundle pkgs1 files1) ->
+       forall n, spec_pkg convert (CmpbBytes.flat_bundle pkgs1 files1) n = spec_pkg convert (CmpbBytes.flat_bundle pkgs2 files2) n.
+Proof.
+  exact (fun pkgs1 pkgs2 Hp => conj (fun path => CmpbBytesProofs.is_local_of_perm pkgs1 pkgs2 path Hp)
+           (fun F D convert files1 files2 Hf Hv =>
+              CmpbBytesProofs.spec_pkg_equiv convert _ _ (CmpbBytesProofs.flat_bundle_equiv pkgs1 pkgs2 files1 files2 Hp Hf) Hv)).
+Qed.
+Print Assumptions C14_package_listing_order_irrelevant.
+
+(* non-vacuity: two packages, three source files, every generated file imports files of the dependency set (resolver-
+   provided, themselves importing descriptor.proto); all hypotheses hold; run 1 (canonical) and run 2 (both listings
+   reversed, all map orders reversed, other fuels, baz.v1 and foo.v1 compiled earlier, Range order reversed) compute the
+   SAME three (name, descriptor, tokens) entries, all with a descriptor and a non-empty token sequence, although the
+   printer was handed different descriptors; and every run whatsoever returns one output *)
+Example C14_example_output_bytes :
+  let b0 := CmpbBytes.flat_bundle CmpbBytesExampleProofs.exb_pkgs (CmpbBytes.src_files CmpbBytesExampleProofs.exb_bd) in
+  valid b0 /\ well_founded_deps b0 CmpbBytesExampleProofs.exb_rank
+  /\ owner_ok (cmpa_convert CmpbBytesExampleProofs.exb_bd) CmpbBytes.split_owner (CmpbBytes.is_local_of CmpbBytesExampleProofs.exb_pkgs) b0
+  /\ imports_wf (cmpa_convert CmpbBytesExampleProofs.exb_bd) CmpbBytes.split_owner (CmpbBytes.is_local_of CmpbBytesExampleProofs.exb_pkgs)
+        (CmpbBytes.c_ext_file CmpbBytesExampleProofs.exb_exts) CmpbBytes.c_deps_of b0 CmpbBytesExampleProofs.exb_frank
+  /\ CmpbBytesProofs.ann_ok CmpbBytesExampleProofs.exb_ann
+  /\ CmpbBytes.run_ok CmpbBytesExampleProofs.exb_pkgs CmpbBytesExampleProofs.exb_bd CmpbBytesExampleProofs.exb_r1
+  /\ CmpbBytes.run_ok CmpbBytesExampleProofs.exb_pkgs CmpbBytesExampleProofs.exb_bd CmpbBytesExampleProofs.exb_r2
+  /\ (exists o,
+        CmpbBytes.compile_and_print CmpbBytesExampleProofs.exb_bd CmpbBytesExampleProofs.exb_exts CmpbBytesExampleProofs.exb_ann
+          CmpbBytesExampleProofs.exb_r1 (b "foo.v1") = Some o
+        /\ CmpbBytes.compile_and_print CmpbBytesExampleProofs.exb_bd CmpbBytesExampleProofs.exb_exts CmpbBytesExampleProofs.exb_ann
+             CmpbBytesExampleProofs.exb_r2 (b "foo.v1") = Some o
+        /\ map (fun x => fst (fst x)) o = [b "foo/v1/a.j5s.proto"; b "foo/v1/b.j5s.proto"; b "foo/v1/service/b.p.j5s.proto"]
+        /\ forallb (fun x => match snd (fst x) with Some _ => true | None => false end && negb (Nat.eqb (length (snd x)) 0)) o = true)
+  /\ (forall out, CmpbBytes.compile_run CmpbBytesExampleProofs.exb_bd CmpbBytesExampleProofs.exb_exts CmpbBytesExampleProofs.exb_r1 (b "foo.v1") = Some out ->
+        map (fun x => CmpbBytes.reorder (CmpbBytes.r_range CmpbBytesExampleProofs.exb_r1) (CmpbBytes.to_print CmpbBytesExampleProofs.exb_ann (snd x))) out
+        <> map (fun x => CmpbBytes.reorder (CmpbBytes.r_range CmpbBytesExampleProofs.exb_r2) (CmpbBytes.to_print CmpbBytesExampleProofs.exb_ann (snd x))) out)
+  /\ exists o, forall r, CmpbBytes.run_ok CmpbBytesExampleProofs.exb_pkgs CmpbBytesExampleProofs.exb_bd r ->
+        (1 < CmpbBytes.r_fuel r)%nat -> (4 < CmpbBytes.r_lfuel r)%nat ->
+        CmpbBytes.compile_and_print CmpbBytesExampleProofs.exb_bd CmpbBytesExampleProofs.exb_exts CmpbBytesExampleProofs.exb_ann r (b "foo.v1") = Some o.
+Proof.
+  exact (conj CmpbBytesExampleProofs.exb_valid (conj CmpbBytesExampleProofs.exb_wf (conj CmpbBytesExampleProofs.exb_owner_ok
+        (conj CmpbBytesExampleProofs.exb_imports_wf (conj CmpbBytesExampleProofs.exb_ann_ok (conj CmpbBytesExampleProofs.exb_r1_ok
+        (conj CmpbBytesExampleProofs.exb_r2_ok (conj CmpbBytesExampleProofs.exb_computes
+        (conj CmpbBytesExampleProofs.exb_range_differs CmpbBytesExampleProofs.exb_total))))))))).
+Qed.
+Print Assumptions C14_example_output_bytes.
+
+(* ... and the tokens of the example are protobuf text FOR the descriptor in tool's model: every printer descriptor that
+   to_print builds there, under both Range orders, is well formed in tool's sense (every type reference resolves in the symbol
+   table of the file and its imports ...), so (tool's round-trip theorem) the printed tokens parse back to an equivalent descriptor *)
+Example C14_example_output_reads_back :
+  forall out, CmpbBytes.compile_run CmpbBytesExampleProofs.exb_bd CmpbBytesExampleProofs.exb_exts CmpbBytesExampleProofs.exb_r1 (b "foo.v1") = Some out ->
+  forall x, In x out -> forall rng, rng = CmpbBytes.r_range CmpbBytesExampleProofs.exb_r1 \/ rng = CmpbBytes.r_range CmpbBytesExampleProofs.exb_r2 ->
+    ProtoPrintFileWf.wf_dfile_b (CmpbBytes.imp_symtab CmpbBytesExampleProofs.exb_ann (CmpbBytes.l_imports (snd x)))
+                                (CmpbBytes.reorder rng (CmpbBytes.to_print CmpbBytesExampleProofs.exb_ann (snd x))) = true
+    /\ exists D', ProtoParseFile.parse_file_tokens (CmpbBytes.imp_symtab CmpbBytesExampleProofs.exb_ann (CmpbBytes.l_imports (snd x)))
+                     (CmpbBytes.print_linked CmpbBytesExampleProofs.exb_ann rng (snd x)) = Some D'
+                  /\ ProtoPrintFileFullProofs.desc_equiv (CmpbBytes.reorder rng (CmpbBytes.to_print CmpbBytesExampleProofs.exb_ann (snd x))) D'.
+Proof. exact CmpbBytesExampleProofs.exb_printed_reads_back. Qed.
+Print Assumptions C14_example_output_reads_back.
+
+(* the Dependency list INSIDE those descriptors: cmpa's converter builds fl_deps with J5sConvert.deps_of, which is this
+   family's ensure_all (the function C14's correspondence CImportsIso compares with real Dependency lists) of the
+   ensureImport calls other than the file itself - so it depends on the SET of calls only *)
+Theorem C14_descriptor_dependency_list : forall self imps1 imps2,
+  J5sConvert.deps_of self imps1 = ensure_all (filter (fun i => negb (beqb i self)) imps1)
+  /\ ((forall x, In x imps1 <-> In x imps2) -> J5sConvert.deps_of self imps1 = J5sConvert.deps_of self imps2).
+Proof.
+  exact (fun self i1 i2 => conj (CmpbBytesDepsProofs.deps_of_is_ensure_all self i1) (CmpbBytesDepsProofs.deps_of_set_invariant self i1 i2)).
+Qed.
+Print Assumptions C14_descriptor_dependency_list.
+
+(* Package.checkDuplicateExports (loadLocalPackage calls it for every file before includeIO): its key collection is sorted
+   before use, and on a valid bundle it never fires whatever files the listing order put before this one - which is why
+   it is not a step of [load] *)
+Theorem C14_duplicate_export_check : forall (F : Type) (pre post : list (@srcfile F)) f k1 k2,
+  (Permutation k1 k2 -> check_duplicate_exports (collect_exports pre) k1 = check_duplicate_exports (collect_exports pre) k2)
+  /\ (valid_pkg (pre ++ f :: post) -> check_duplicate_exports (collect_exports pre) (f_exports f) = None).
+Proof.
+  exact (fun F pre post f k1 k2 => conj (check_duplicate_exports_perm (collect_exports pre) k1 k2) (check_duplicate_exports_valid pre post f)).
+Qed.
+Print Assumptions C14_duplicate_export_check.
 
 (* ---- the accounting of the Go code's unordered iterations *)
 Theorem C14_order_sites_agree : order_sites_same_set = true.
@@ -200,6 +355,15 @@ Print Assumptions C14_order_bodies_agree.
 Theorem C14_collected_keys_sorted : collected_keys_are_sorted = true.
 Proof. exact collected_keys_sorted. Qed.
 Print Assumptions C14_collected_keys_sorted.
+
+(* ---- every classification row cites a permutation lemma about a Gallina function that models THAT loop body
+   (model/CmpbOrder.v: copy_fields, warn_unused, log_children, lint_all, first_unresolved, range_entries,
+   find_file_by_path, first_member, child_ignores_options, add_absent, list_fields, next to ensure_all, include_io,
+   options_for, field_options, map_entries, load); here each of the former "generic lemma" rows' model functions is RUN
+   on two iteration orders of the same collection (the orders differ, the observable part of the result does not) *)
+Theorem C14_order_site_probes : loop_probes_statement.
+Proof. exact loop_probes_compute. Qed.
+Print Assumptions C14_order_site_probes.
 
 (* ---- the generated file's import list depends only on the SET of files passed to ensureImport *)
 Theorem C14_imports_order_irrelevant : forall c1 c2, (forall x, In x c1 <-> In x c2) -> ensure_all c1 = ensure_all c2.
